@@ -22,7 +22,7 @@ else:
 for name in sys.argv[1:]:
     pid, n = name.split("-")
     patch = f"{STAGE}/{name}.diff"
-    demo_src = f"{WTROOT}/{pid.rstrip('rs')}/tests/demo{n}.rs"
+    demo_src = f"{WTROOT}/{pid.rstrip('rs') if pid[0]=='C' else pid}/tests/demo{n}.rs"
     R(f"git -C {WT} reset -q --hard && git -C {WT} clean -fdq -e target")
     os.makedirs(WT + "/tests", exist_ok=True)
     shutil.copy(demo_src, WT + f"/tests/demo{n}.rs")
